@@ -382,6 +382,20 @@ fn check_layout(seed: u64, obs: &mut Obs) {
                 if tagged != want {
                     obs.violate(cell("diagnostic-lists-not-tagged-with-included-paths"), format!("{detail_hdr}\ntags {tagged:?}\nfiles read (pre-order) {want:?}"));
                 }
+                // the library that is provided without any file: every gate with its arity
+                if a.symbols.iter().any(|s| s.1.starts_with("Gate(") && s.0 != "U") {
+                    for (n, np, nq) in crate::model_resolve::STDGATES {
+                        let want = format!("Gate({np}, {nq})");
+                        match a.symbols.iter().find(|s| s.0 == *n) {
+                            Some(s) if s.1 == want => {}
+                            other => {
+                                obs.violate(cell("stdgates-library-gate-wrong-or-missing"), format!("{detail_hdr}\ngate {n}: {other:?}, the library has {want}"));
+                                break;
+                            }
+                        }
+                    }
+                    obs.class("stdgates-library-checked");
+                }
                 if a.symbols.iter().any(|s| s.0 == "this_file_must_not_be_read") {
                     obs.violate(cell("stdgates-read-from-a-file"), detail_hdr.clone());
                 }
